@@ -49,7 +49,7 @@ PROPS = {
     ),
     "C06": dict(
         title="Lifecycle gating and monotonicity",
-        lean=["LP.Props.C06stage", "LP.Props.C06gates"],
+        lean=["LP.Props.C06gates"],
         profiles=[("timeline", ALL_VARIANTS), ("life", ALL_VARIANTS)],
         R={"st": ANY},
         D={"flags", "cfg"},
